@@ -196,7 +196,7 @@ theorem create_pushes {db : Db} {hasStorage : Addr → Bool} {s s' : JState} {ca
               obtain ⟨hu, hb6⟩ := create_tail (db := db) n4 hs3 hlt hc hcb hbal3 hp6
               have q6 := pushEntry_some hp6
               refine ⟨.balanceTransfer caller a bal :: ((if acc.touched then [] else [.accountTouched a]) ++ [.accountCreated a]),
-                ⟨fun t r hj => ?_, ?_, ?_, ?_, ?_, ?_, fun _ => hb6⟩⟩
+                ⟨fun t r hj => ?_, ?_, ?_, ?_, ?_, ?_, fun _ => hb6, ?_, ?_⟩⟩
               · have := q6.journal _ _ (p3.journal t r hj)
                 rw [this]; rfl
               · rw [q6.spec]; exact p3.spec
@@ -213,6 +213,10 @@ theorem create_pushes {db : Db} {hasStorage : Addr → Bool} {s s' : JState} {ca
               · intro b hb
                 simp at hb
                 exact p3.zero b (by simp [hb])
+              · intro b hb
+                cases hta : acc.touched <;> simp [hta] at hb
+              · intro b k hb
+                cases hta : acc.touched <;> simp [hta] at hb
             by_cases hsd : specId ≥ SPURIOUS_DRAGON
             · simp only [hsd, if_true] at h
               split at h
